@@ -3,6 +3,9 @@ def setup(chk):
     chk.add_tu('C11h.cpp')   # std::string / std::vector destinations holding stale elements
     chk.add_tu('C11x.cpp')
     if chk.tier == 'thorough':
-        chk.add_tu('C11t.cpp')
+        import glob, os
+        here = os.path.dirname(os.path.dirname(os.path.abspath(__file__)))
+        for f in sorted(glob.glob(os.path.join(here, 'h/C11t*.cpp'))):
+            chk.add_tu(os.path.basename(f))
     chk.extra_evidence.update({'bounds_text': 'every core-pool type: destination = arbitrary drawn value, then a read of M arbitrary bytes (which may succeed or fail at any point), then N arbitrary bytes read into it and into a fresh object: same status, same error, same value, same consumed length (quick: N up to 12 / 4 for tables, M = 3 / 2; thorough: more (N,M) combinations); lifetime part: Optional/Variant/Result/array/logical buffer/table over a serializable lifetime-tracking structure: two successive reads of arbitrary bytes, then destruction: live count 0, no double destroy',
       'outside_bounds': ['std::vector / std::string / maps (heap; stale elements are covered only through tables, logical buffers and arrays)', 'prior states produced by more than one earlier read']})
